@@ -74,7 +74,15 @@ func OpenFile(f string) (*Database, error) {
 	if err != nil {
 		return nil, err
 	}
-	return newDatabase(l, f+"-journal")
+	d, err := newDatabase(l, f+"-journal")
+	if err != nil {
+		// Don't leave the file open: the garbage collector would close it
+		// some time later, and closing any descriptor of a file drops all the
+		// locks this process holds on that file, those of other handles too.
+		l.Close()
+		return d, err
+	}
+	return d, nil
 }
 
 func newDatabase(l pager, journal string) (*Database, error) {
